@@ -71,6 +71,12 @@ def monitor(case, obs):
         dup = [i for i in ids if ids.count(i) > 1 and tr.stmts.get(i, {}).get('level') != 9]
         if dup:
             return 'statement %d written more than once to sink %d' % (dup[0], k)
+    # a statement that cannot be formatted reaches the sinks as the error text, never with (part of) its own text: the
+    # driver's formatter writes "<id>:" before it throws a non-std exception
+    for pos, k, i, lvl in tr.writes:
+        d = tr.stmts.get(i)
+        if i and d is not None and d['mode'] != 0 and d['level'] != 9:
+            return 'sink %d was handed text of statement %d, whose formatter throws (mode %d): the partial output of the failed formatting reached the sink' % (k, i, d['mode'])
     # which (sink, id) pairs may legitimately be missing: a sink throws on one of its write_log calls, and then that
     # statement is also missing from the sinks after it. We allow, per throw in the plan, one missing statement per sink.
     throws = sum(len([x for x in th if x != 4095]) for (_, th) in case.sinks)
